@@ -528,4 +528,31 @@ theorem evaluate_of_visit (fuel : Nat) (env : Env) (t nt : Ast) (hn : normalizeT
   exact ⟨fun h => (evalNorm_err_iff fuel env nt _ _).2 (Or.inl ⟨h, rfl, rfl⟩),
     fun e p h => (evalNorm_err_iff fuel env nt e p).2 (Or.inr h)⟩
 
+/-! ## non-vacuity of the `iterationsLimit` site (loop level) -/
+
+/-- the `iterationsLimit` site of `ViQuantifier` is reached: a universal quantifier whose body holds everywhere (and
+leaves the iteration counter alone) over a domain with more than `MAX_ITERATIONS - iters` elements ends with
+`iterationsLimit` at the quantifier's position -/
+theorem quantLoop_limit (body : St → R V) (var : Nat) (pos : Int)
+    (hb : ∀ st, ∃ st', body st = .ok (.bool true) st' ∧ st'.iters = st.iters) :
+    ∀ (xs : List Val) (st : St), st.iters ≤ MAX_ITERATIONS → st.iters + xs.length > MAX_ITERATIONS →
+      quantLoop body var true pos xs st = .fail (.err EID.iterationsLimit pos) (MAX_ITERATIONS + 1)
+  | [], st, h1, h2 => by simp at h2; omega
+  | x :: xs, st, h1, h2 => by
+    simp only [quantLoop]
+    by_cases hn : st.iters + 1 > MAX_ITERATIONS
+    · rw [if_pos hn]
+      have : st.iters + 1 = MAX_ITERATIONS + 1 := by omega
+      rw [this]
+    · rw [if_neg hn]
+      obtain ⟨st', hb1, hb2⟩ := hb { data := st.data.set var x, iters := st.iters + 1 }
+      rw [hb1]
+      simp only [bne_self_eq_false, Bool.false_eq_true, if_false]
+      apply quantLoop_limit body var pos hb xs st'
+      · rw [hb2]; simp only; omega
+      · rw [hb2]; simp only [List.length_cons] at h2 ⊢; omega
+
+example : quantLoop (fun st => .ok (.bool true) st) 0 true 6 (List.replicate 100001 (.e 0)) { data := [.e 0], iters := 0 } =
+    .fail (.err EID.iterationsLimit 6) 100001 :=
+  quantLoop_limit _ 0 6 (fun st => ⟨st, rfl, rfl⟩) _ _ (by decide) (by simp only [List.length_replicate]; decide)
 end CCVerif.EvalPos
